@@ -297,6 +297,35 @@ def _quirks():
             raise ExtractionError("BlockBase.match: unnamed-start branch has an unmodelled shape")
     else:
         raise ExtractionError("BlockBase.match: several `start_stmt.get_name() is None` tests")
+    # Program.match: is the NoMatchError of a program unit handled inside the loop?
+    ptree = ast.parse(textwrap.dedent(inspect.getsource(
+        Fortran2003.Program.__dict__["match"].__func__)))
+    outer = [n for n in ast.walk(ptree) if isinstance(n, ast.Try)
+             and any(isinstance(x, ast.While) for x in n.body)]
+    if len(outer) != 1:
+        raise ExtractionError("Program.match: no single try around the while loop")
+
+    def hnames(tr):
+        out = []
+        for hd in tr.handlers:
+            t = hd.type
+            out += [e.id for e in t.elts] if isinstance(t, ast.Tuple) else [t.id]
+        return sorted(out)
+    loop = [x for x in outer[0].body if isinstance(x, ast.While)][0]
+    inner = [n for n in ast.walk(loop) if isinstance(n, ast.Try)]
+    if hnames(outer[0]) == ["NoMatchError", "StopIteration"] and not inner:
+        q["programContinues"] = False
+    elif hnames(outer[0]) == ["StopIteration"] and len(inner) == 1 and \
+            hnames(inner[0]) == ["NoMatchError"]:
+        hb = ast.Module(body=inner[0].handlers[0].body, type_ignores=[])
+        calls3 = [getattr(c.func, "attr", "") for c in ast.walk(hb) if isinstance(c, ast.Call)]
+        rets = [r for r in ast.walk(hb) if isinstance(r, ast.Return)]
+        if "match" in calls3 and "extend" in calls3 and len(rets) == 1:
+            q["programContinues"] = True
+        else:
+            raise ExtractionError("Program.match: NoMatchError handler has an unmodelled shape")
+    else:
+        raise ExtractionError("Program.match: unmodelled exception structure")
     # Outer/Inner_Shared_Do_Construct.match: restore on failure or not
     shapes = []
     for cls in (Fortran2003.Outer_Shared_Do_Construct, Fortran2003.Inner_Shared_Do_Construct):
@@ -602,7 +631,8 @@ def render_lean(t):
     L.append("    quirks := { %s }" % ", ".join(
         "%s := %s" % (k, _b(q[k])) for k in ["main0Finally", "catchInternalSyntax",
                                              "nameMismatchSyntax", "nameMismatchRemoves",
-                                             "seqRestores", "startNameNoneSyntax"]))
+                                             "seqRestores", "startNameNoneSyntax",
+                                             "programContinues"]))
     L.append("  }")
     L.append("")
     L.append("def program : Cls := %d" % t["program"])
